@@ -385,6 +385,8 @@ def subst_e(t, x, plug, mode='partial'):
                 body = subst_s(t[2], t[1], sv(Z), 'alpha')
                 return ('mu', Z, subst_e(body, x, plug, 'alpha'))
         return ('mu', t[1], subst_e(t[2], x, plug, mode))
+    if k == 'mv' and x in t[2]:
+        return t          # A10: the metavariable declares x fresh - nothing is substituted (a wrapped term would be a redundant ESubst)
     return ('es', t, x, plug)
 
 
@@ -428,6 +430,8 @@ def subst_s(t, X, plug, mode='partial'):
                 body = subst_e(t[2], t[1], ev(z), 'alpha')
                 return ('ex', z, subst_s(body, X, plug, 'alpha'))
         return ('ex', t[1], subst_s(t[2], X, plug, mode))
+    if k == 'mv' and X in t[3]:
+        return t          # A10, as for element variables
     return ('ss', t, X, plug)
 
 
